@@ -203,7 +203,7 @@ def number_alphabet(rule, crate):
     if pt is None:
         rule.anchor_missing("parse_token")
         return
-    S = sim.Sim([crate], hooks={"call": lex.seq_hook([0x2D, 0x35])}, inline=lambda a, b: b.path in NUM_INLINE,
+    S = sim.Sim([crate], hooks={"call": lex.seq_hook([0x2D, 0x35])}, inline=lex.helper_inline(crate, NUM_INLINE),
                 max_visits=2, max_paths=5000)
     paths = S.run(pt, args={2: 0x2D})
     got = set()
@@ -244,9 +244,10 @@ def printable_chars(rule, crate, dialect):
     inl = lambda a, b: b.path in lex.WRAPPERS or b.path in ("parse::read::decode_elisp_char_escape", "parse::read::is_delimiter",
                                                              "parse::read::decode_r6rs_char_hex_escape", "parse::read::decode_hex_val")
     n_ok = 0
+    fwd = common.sink_forwarders(crate)
     for n in range(32, 127):
         # what the writer emits (constant propagation with c = n)
-        S = sim.Sim([crate])
+        S = sim.Sim([crate], inline=lambda a, b: b.path in fwd)
         texts = set()
         for p in S.run(wf, args={2: n}):
             if p.end != "return":
@@ -315,7 +316,7 @@ def hash_tokens(rule, crate):
         if c.endswith(b"(") and c != b"#(":
             body = body[:-1]
         seq = body + [0x61, 0x20]
-        inl = lambda a, b: b.path in lex.WRAPPERS or b.path == "parse::Parser::<R>::expect_ident"
+        inl = lex.helper_inline(crate, {"parse::Parser::<R>::expect_ident"})
 
         def extra(S, fn, bb, t, args, path, names):
             if any(n.endswith("parse_symbol") for n in names) and "parse::read::Read::parse_symbol" not in names:
